@@ -180,4 +180,146 @@ theorem handleMsgs_server_crash (c : Cfg) : ∀ (ms : List Msg) (τ : Core), τ.
     · exact List.mem_append_left _ (serverMsg_crash _ _ _ h1 h3)
     · exact List.mem_append_right _ (ih _ h3 h2)
 
+/-! ### handling client messages never closes an open upstream connection -/
+
+theorem popConn_serverOpen (σ : Core) : (popConn σ).2.serverOpen = σ.serverOpen := by
+  unfold popConn; cases σ.conns <;> rfl
+
+theorem sendServer_serverOpen (c : Cfg) (σ : Core) (m : Msg) : (sendServer c σ m).1.serverOpen = σ.serverOpen := by
+  rcases (sendServer_spec c σ m).1 with h | h <;> rw [h] <;> rfl
+
+theorem handleError_serverOpen (c : Cfg) (σ : Core) (k : Nat) (f : Flow) :
+    (handleError c σ k f).1.serverOpen = σ.serverOpen := by
+  unfold handleError
+  dsimp only
+  split
+  · simp [crashed, setFlow, popAct_serverOpen]
+  · rw [sendClient_serverOpen]; simp [setFlow, popAct_serverOpen]
+
+theorem handleRequest_serverOpen (c : Cfg) (σ : Core) (k : Nat) (f : Flow) (q : Msg) (h : σ.serverOpen = true) :
+    (handleRequest c σ k f q).1.serverOpen = true := by
+  have h0 : ∀ f', (setFlow (popAct σ).2 k f').serverOpen = true := by intro f'; simp [setFlow, popAct_serverOpen, h]
+  unfold handleRequest
+  dsimp only
+  split
+  · rw [handleResponse_serverOpen]; exact h0 _
+  · split
+    · rw [handleError_serverOpen]; exact h0 _
+    · split
+      · rw [sendServer_serverOpen]; exact h0 _
+      · split
+        · rw [handleError_serverOpen]; exact h0 _
+        · split
+          · rw [sendServer_serverOpen]
+          · rw [handleError_serverOpen]; simp [popConn_serverOpen, h0]
+
+theorem handleMsgs_client_serverOpen (c : Cfg) : ∀ (ms : List Msg) (σ : Core), σ.serverOpen = true →
+    (handleMsgs c true σ ms).1.serverOpen = true := by
+  intro ms
+  induction ms with
+  | nil => intro σ h; exact h
+  | cons m ms ih =>
+    intro σ h
+    unfold handleMsgs
+    split
+    · exact h
+    · dsimp only
+      exact ih _ (by simp only [if_true]; unfold clientMsg; exact handleRequest_serverOpen _ _ _ _ _ h)
+
+/-! ### replies nobody is waiting for -/
+
+/-- the reply `m` answers the query the flow table holds for its id -/
+def Solicited (σ : Core) (m : Msg) : Prop :=
+  ∃ f q, σ.flows.lookup m.id = some f ∧ f.request = some q ∧ m.questions = q.questions
+
+theorem serverMsg_unsolicited (c : Cfg) (A : List Msg) (σ : Core) (m : Msg) (hinv : Inv A σ) (h : ¬ Solicited σ m) :
+    serverMsg c σ m = (σ, []) := by
+  unfold serverMsg
+  cases hl : σ.flows.lookup m.id with
+  | none => rfl
+  | some f =>
+    obtain ⟨q, h1, _, _, _⟩ := hinv.1 _ _ (mem_of_lookup hl)
+    simp only [h1]
+    split
+    · rename_i hqs; exact absurd ⟨f, q, hl, h1, hqs⟩ h
+    · rfl
+
+theorem serverMsg_solicited (c : Cfg) (σ : Core) (m : Msg) (f : Flow) (q : Msg)
+    (hl : σ.flows.lookup m.id = some f) (hr : f.request = some q) (hq : m.questions = q.questions) :
+    serverMsg c σ m = handleResponse c σ m.id f m := by
+  unfold serverMsg
+  simp [hl, hr, hq]
+
+theorem handleMsgs_unsolicited (c : Cfg) (A : List Msg) : ∀ (ms : List Msg) (σ : Core), Inv A σ →
+    (∀ m ∈ ms, ¬ Solicited σ m) → handleMsgs c false σ ms = (σ, []) := by
+  intro ms
+  induction ms with
+  | nil => intro σ _ _; rfl
+  | cons m ms ih =>
+    intro σ hinv h
+    unfold handleMsgs
+    split
+    · rfl
+    · have h1 := serverMsg_unsolicited c A σ m hinv (h m (by simp))
+      simp only [Bool.false_eq_true, if_false, h1]
+      rw [ih σ hinv (fun m' hm' => h m' (by simp [hm']))]
+      rfl
+
+/-- a solicited reply answers a query that was handled: same id, same question section -/
+theorem Solicited_seen {A : List Msg} {σ : Core} {m : Msg} (hinv : Inv A σ) (h : Solicited σ m) :
+    ∃ q ∈ σ.seen, q.id = m.id ∧ q.questions = m.questions := by
+  obtain ⟨f, q, hl, hr, hq⟩ := h
+  obtain ⟨q', h1, h2, h3, _⟩ := hinv.1 _ _ (mem_of_lookup hl)
+  rw [hr] at h1; cases h1
+  exact ⟨q, h3, h2, hq.symm⟩
+
+/-! ### a server segment that completes no frame commutes with data from the client -/
+
+theorem buffered_server_commutes (c : Cfg) (htcp : c.tcp = true) (σ : State) (s x : Bytes)
+    (hq : σ.core.phase = .query) (ho : σ.core.serverOpen = true)
+    (hnone : (parse c.I (σ.respBuf ++ s)).1 = []) (hok : (parse c.I (σ.respBuf ++ s)).2.2 = false) :
+    run c σ [.serverData s, .clientData x] = run c σ [.clientData x, .serverData s] := by
+  have hne : σ.core.phase ≠ .crashed := by rw [hq]; simp
+  have hs : ∀ τ : State, τ.core.phase = .query → τ.core.serverOpen = true → τ.respBuf = σ.respBuf →
+      step c τ (.serverData s) = (State.mk τ.core τ.reqBuf (parse c.I (σ.respBuf ++ s)).2.1, []) := by
+    intro τ h1 h2 h3
+    have hne' : τ.core.phase ≠ .crashed := by rw [h1]; simp
+    simp [step, h1, h2, stepServer, extract, htcp, h3, hnone, hok, handleMsgs, hne']
+  have hc : ∀ τ : State, τ.core.phase = .query → step c τ (.clientData x) = stepClient c τ x := by
+    intro τ h1; simp [step, h1]
+  simp only [run, List.append_nil, List.nil_append]
+  rw [hs σ hq ho rfl, hc σ hq]
+  dsimp only
+  rw [hc (State.mk σ.core σ.reqBuf (parse c.I (σ.respBuf ++ s)).2.1) hq]
+  -- the three outcomes of the client's data
+  by_cases hcr : (handleMsgs c true σ.core (extract c.I c.tcp σ.reqBuf x).1).1.phase = .crashed
+  · have e1 : ∀ τ : State, τ.core = σ.core → τ.reqBuf = σ.reqBuf → stepClient c τ x =
+        (ended (handleMsgs c true σ.core (extract c.I c.tcp σ.reqBuf x).1).1, (handleMsgs c true σ.core (extract c.I c.tcp σ.reqBuf x).1).2) := by
+      intro τ h1 h2; simp only [stepClient, h1, h2, hcr, if_true]
+    rw [e1 σ rfl rfl, e1 (State.mk σ.core σ.reqBuf (parse c.I (σ.respBuf ++ s)).2.1) rfl rfl]
+    rw [step_not_query c _ _ (by simp [ended, hcr])]
+    simp
+  · by_cases hbad : (extract c.I c.tcp σ.reqBuf x).2.2 = true
+    · have e1 : ∀ τ : State, τ.core = σ.core → τ.reqBuf = σ.reqBuf → stepClient c τ x =
+          (ended { (handleMsgs c true σ.core (extract c.I c.tcp σ.reqBuf x).1).1 with phase := .done },
+           (handleMsgs c true σ.core (extract c.I c.tcp σ.reqBuf x).1).2 ++ [.closeClient]) := by
+        intro τ h1 h2; simp only [stepClient, h1, h2, hcr, hbad, if_true, if_false]
+      rw [e1 σ rfl rfl, e1 (State.mk σ.core σ.reqBuf (parse c.I (σ.respBuf ++ s)).2.1) rfl rfl]
+      rw [step_not_query c _ _ (by simp [ended])]
+      simp
+    · have e1 : ∀ τ : State, τ.core = σ.core → τ.reqBuf = σ.reqBuf → stepClient c τ x =
+          (State.mk (handleMsgs c true σ.core (extract c.I c.tcp σ.reqBuf x).1).1 (extract c.I c.tcp σ.reqBuf x).2.1 τ.respBuf,
+           (handleMsgs c true σ.core (extract c.I c.tcp σ.reqBuf x).1).2) := by
+        intro τ h1 h2; simp [stepClient, h1, h2, hcr, hbad]
+      rw [e1 σ rfl rfl, e1 (State.mk σ.core σ.reqBuf (parse c.I (σ.respBuf ++ s)).2.1) rfl rfl]
+      have hq2 : (handleMsgs c true σ.core (extract c.I c.tcp σ.reqBuf x).1).1.phase = .query := by
+        rcases handleMsgs_pm c true (extract c.I c.tcp σ.reqBuf x).1 σ.core with h | h
+        · rw [h, hq]
+        · exact absurd h hcr
+      have ho2 := handleMsgs_client_serverOpen c (extract c.I c.tcp σ.reqBuf x).1 σ.core ho
+      dsimp only
+      rw [hs (State.mk (handleMsgs c true σ.core (extract c.I c.tcp σ.reqBuf x).1).1 (extract c.I c.tcp σ.reqBuf x).2.1 σ.respBuf)
+        hq2 ho2 rfl]
+      simp
+
 end MitmVerif.C27
